@@ -353,16 +353,16 @@ func extractNilReturns(pkgs []*packages.Package, facts *Facts, leanDir string) {
 				for k := len(path) - 2; k >= 0; k-- {
 					if is, ok := path[k].(*ast.IfStmt); ok {
 						if path[k+1] == ast.Node(is.Body) {
-							nr.Ctx = "if " + exprString(is.Cond)
+							nr.Ctx = "if " + normExpr(c.info, is.Cond)
 						} else {
-							nr.Ctx = "else of if " + exprString(is.Cond)
+							nr.Ctx = "else of if " + normExpr(c.info, is.Cond)
 						}
 						break
 					}
 					if cc, ok := path[k].(*ast.CaseClause); ok {
 						var cs []string
 						for _, ce := range cc.List {
-							cs = append(cs, exprString(ce))
+							cs = append(cs, normExpr(c.info, ce))
 						}
 						if cc.List == nil {
 							nr.Ctx = "default"
